@@ -57,6 +57,16 @@ pub fn to_miette_report_with_formatter(
     miette::Report::new(diag)
 }
 
+/// Message text may reflect keys and values of the input; strip terminal control characters
+/// from it the same way the source is sanitized.
+fn terminal_safe(msg: String) -> String {
+    if crate::de_snipped::is_terminal_snippet_clean(&msg) {
+        msg
+    } else {
+        sanitize_terminal_snippet_preserve_len(msg)
+    }
+}
+
 #[derive(Clone, Debug)]
 struct ErrorDiagnostic {
     message: String,
@@ -204,7 +214,7 @@ fn build_diagnostic(
             );
 
             ErrorDiagnostic {
-                message: formatter.format_message(err).into_owned(),
+                message: terminal_safe(formatter.format_message(err).into_owned()),
                 src,
                 labels,
                 related: Vec::new(),
@@ -217,13 +227,13 @@ fn build_diagnostic(
                 && let Some(span) = to_source_span(&src, &loc)
             {
                 labels.push(LabeledSpan::new_with_span(
-                    Some(formatter.format_message(other).into_owned()),
+                    Some(terminal_safe(formatter.format_message(other).into_owned())),
                     span,
                 ));
             }
 
             ErrorDiagnostic {
-                message: formatter.format_message(other).into_owned(),
+                message: terminal_safe(formatter.format_message(other).into_owned()),
                 src,
                 labels,
                 related: Vec::new(),
@@ -269,7 +279,7 @@ fn build_validation_entry_diagnostic(
     let labels = build_validation_labels(src, ref_loc, def_loc);
 
     ErrorDiagnostic {
-        message: base_msg,
+        message: terminal_safe(base_msg),
         src: Arc::clone(src),
         labels,
         related: Vec::new(),
